@@ -8,6 +8,6 @@ CONSTANTS
   RampLens = {10}
   ShiftHalves = {5, 6, 7, 10, 12}
   Elem <- ElemDef
-INVARIANTS NoUnderflow InRange ResultLaw EmitComposite
+INVARIANTS PwIsPow NoUnderflow InRange ResultLaw EmitComposite
 PROPERTY Terminates
 CHECK_DEADLOCK FALSE
